@@ -150,7 +150,7 @@ Outcome runPlan(const Plan & p, Ctx & c)
       // the value as the check-up's value type holds it (a shrunk or hand-written plan may carry any double)
       double ev = e.v;
       if (u.kind != model::Reliability && u.vtype == 1) {ev = (double)(float)e.v; if (!std::isfinite(ev)) {ev = 0;}}
-      if (u.kind != model::Reliability && u.vtype == 2) {ev = std::trunc(std::max(-99999.0, std::min(99999.0, e.v)));}
+      if (u.kind != model::Reliability && u.vtype == 2) {ev = std::trunc(std::max(-2000000000.0, std::min(2000000000.0, e.v)));}
       SIM_COUNT("op.evaluate");
       model::Verdict exact = model::classify(u.kind, ev, u.a, u.b), rounded = model::classifyRounded(u.kind, ev, u.a, u.b);
       if (u.kind != model::Reliability) {
@@ -170,6 +170,7 @@ Outcome runPlan(const Plan & p, Ctx & c)
       int ret = (int)subj[k].evaluate(ev);
       int before = mod[k].rep.status;
       mod[k].evaluate(ev);
+      if (u.kind != model::Reliability && u.vtype == 2) {mod[k].rep.value = std::to_string((long long)ev);}   // an int prints as an integer, whatever its size
       if (before != mod[k].rep.status && evaluated[k]) {SIM_PROBE("status_changed_by_evaluation");}
       evaluated[k] = true;
       c.log((uint64_t)ret);
@@ -263,6 +264,11 @@ Outcome runPlan(const Plan & p, Ctx & c)
           if ((int)r.diagnostics.size() != nd) {return Outcome::fail("append-changed-its-source", fmt("event #%zu: a named report lost diagnostics by being appended to another", no));}
         }
         ++nrep;
+      }
+      if ((e.i & 3) == 3 && !total.diagnostics.empty()) {
+        // the combined report appended to itself: its diagnostics twice, its info unchanged
+        total += total; SIM_PROBE("report_appended_to_itself");
+        std::vector<std::pair<int, std::string>> twice = wantDiag; twice.insert(twice.end(), wantDiag.begin(), wantDiag.end()); wantDiag.swap(twice);
       }
       c.note(fmt("#%zu append %zu synthetic reports", no, nrep));
       size_t pos = 0; bool okd = total.diagnostics.size() == wantDiag.size();
@@ -366,6 +372,7 @@ struct PropC18
   {
     if (u.kind != model::Reliability && u.vtype == 2) {
       double t = r.chance(0.5) ? u.a - u.b : u.a + u.b;
+      if (r.chance(0.1)) {return (double)r.range(-2000000000LL, 2000000000LL);}   // many digits
       return r.chance(0.7) ? t + (double)r.range(-2, 2) : (double)r.range(-3000, 3000);
     }
     if (u.kind != model::Reliability && u.vtype == 1) {
